@@ -98,6 +98,8 @@ func c02Run(sc c02Sc, split int) (c02Out, []string) {
 				mu.Unlock()
 			}
 		case "none":
+		case "timeout":
+			ctx.TimeoutError("verif timeout") // body untouched; the loop goes on with a fresh ctx
 		default:
 			st := ctx.RequestBodyStream()
 			if st == nil {
